@@ -295,6 +295,14 @@ func Walk(v ssa.Value, depth int, visit func(ssa.Value) bool) {
 				if s, ok := r.(*ssa.Store); ok && s.Addr == x {
 					rec(s.Val, d-1)
 				}
+				// elements stored into a local array (variadic argument packing)
+				if ia, ok := r.(*ssa.IndexAddr); ok && ia.X == x {
+					for _, rr := range *ia.Referrers() {
+						if s, ok := rr.(*ssa.Store); ok && s.Addr == ia {
+							rec(s.Val, d-1)
+						}
+					}
+				}
 			}
 		case *ssa.Next:
 			rec(x.Iter, d-1)
